@@ -322,3 +322,16 @@ Proof.
   split; [vm_compute; reflexivity|]. split; [|vm_compute; reflexivity].
   exists (RObj 0 []), method_heap, 0. split; [vm_compute; lia|]. vm_compute. discriminate.
 Qed.
+
+(* cp_mode_dot(copy=False) with a vector after fix 93a737c: only the caller's factor LIST (and the CPTensor object) change, no
+   factor array is written any more; before the fix the neighbouring factor's buffer was scaled in place *)
+Definition cpmd_heap : heap := [
+  OBuf [2; 3]%Z; OBuf [1; 2]%Z; OBuf [3; 4]%Z; OBuf [5; 6]%Z;
+  OCell [RObj 1 [0; 1]; RObj 2 [0; 1]; RObj 3 [0; 1]];
+  OCell [RObj 0 [0; 1]; RObj 4 []; RNull];
+  OBuf [7; 8]%Z ].
+Lemma cp_mode_dot_nocopy_before_93a737c :
+  footprint sk_cp_mode_dot_nocopy [RObj 5 []; RObj 6 [0; 1]] cpmd_heap = [4; 5] /\
+  footprint old_cp_mode_dot_nocopy [RObj 5 []; RObj 6 [0; 1]] cpmd_heap = [1; 4; 5] /\
+  safe_with [true; false] old_cp_mode_dot_nocopy = true /\ footprint sk_cp_mode_dot_copy [RObj 5 []; RObj 6 [0; 1]] cpmd_heap = [].
+Proof. vm_compute. repeat split; reflexivity. Qed.
